@@ -192,6 +192,12 @@ func (r *Report) Finish(verifDir string, tier string, seed int, wall float64, ex
 	for k, v := range extra {
 		cov[k] = v
 	}
+	if assumptions == nil {
+		assumptions = []string{}
+	}
+	if trusted == nil {
+		trusted = []string{}
+	}
 	ev := map[string]any{
 		"property_id": r.Property,
 		"tier":        tier,
